@@ -1,4 +1,4 @@
 
 (* ---- C01: move_dist_lt as it is in the source now = Model/EbbCalc.v (accum = None stands for "clear") ---- *)
 Lemma move_dist_lt_eq : forall rate accel time accum, t_move_dist_lt rate accel time accum = move_dist_lt rate accel time accum.
-Proof. intros. destruct accum; timeout 30 reflexivity. Qed.
+Proof. intros. destruct accum; kernel_eq_zq. Qed.
